@@ -207,14 +207,32 @@ def run_action(binary, n, rnd, out):
         try:
             bindir = os.path.join(tmp, "bin"); os.makedirs(bindir)
             os.symlink(binary, os.path.join(bindir, "pickle-fuzzer"))
-            f = os.path.join(tmp, "a.pkl")
+            # file names a shell can mangle: blanks, glob characters (with a decoy the pattern would match), a `-`
+            name = ["a.pkl", "out 1.pkl", "out[1].pkl", "o*t.pkl", "dir with blank/x.pkl", "-o.pkl", "a b  c.pkl"][k % 7]
+            decoy = os.path.join(tmp, "out1.pkl")
+            open(decoy, "wb").write(b"decoy")
+            open(os.path.join(tmp, "oxt.pkl"), "wb").write(b"decoy")
+            f = os.path.join(tmp, name)
+            os.makedirs(os.path.dirname(f), exist_ok=True)
             env = dict(ENV, PATH=bindir + ":" + ENV.get("PATH", ""))
-            env.update(action_env(o, outfile=f))
-            rc, so, se = sh(["bash", script], env=env)
             want = lib_bytes(spec_case(o))
-            got = open(f, "rb").read() if os.path.exists(f) else b""
-            ok = rc == 0 and got == want
-            out.append("front action %s options=%s%s" % ("ok" if ok else "FAIL", json.dumps(o, sort_keys=True).replace(" ", ""),
+            if k % 4 == 3:
+                # directory mode of the wrapper (a directory name with a blank every other time)
+                d = os.path.join(tmp, "out dir" if k % 8 == 7 else "outdir")
+                samples = [1, 3, 4][k % 3]
+                env.update(action_env(o, outdir=d, samples=samples))
+                rc, so, se = sh(["bash", script], env=env, cwd=tmp)
+                names = sorted(os.listdir(d)) if os.path.isdir(d) else []
+                ok = rc == 0 and names == sorted("%d.pkl" % i for i in range(samples)) and all(open(os.path.join(d, x), "rb").read() == want for x in names)
+                got = b"".join(open(os.path.join(d, x), "rb").read() for x in names[:1]) if names else b""
+                what = "dir=%s samples=%d" % (os.path.basename(d).replace(" ", "_"), samples)
+            else:
+                env.update(action_env(o, outfile=f))
+                rc, so, se = sh(["bash", script], env=env, cwd=tmp)
+                got = open(f, "rb").read() if os.path.isfile(f) else b""
+                ok = rc == 0 and got == want and open(decoy, "rb").read() == b"decoy" and open(os.path.join(tmp, "oxt.pkl"), "rb").read() == b"decoy"
+                what = "file=%s" % name.replace(" ", "_")
+            out.append("front action %s %s options=%s%s" % ("ok" if ok else "FAIL", what, json.dumps(o, sort_keys=True).replace(" ", ""),
                        "" if ok else " rc=%d wrapper_len=%d lib_len=%d stderr=%s" % (rc, len(got), len(want), se.decode()[-160:].replace("\n", "|").replace(" ", "_"))))
         finally:
             shutil.rmtree(tmp, ignore_errors=True)
